@@ -271,8 +271,111 @@ def r6_word_is_identifier_bytes(ctx):
     ctx.floor("cursor advances in read_word", n, 1)
 
 
+def r7_token_start_after_layout(ctx):
+    """A token's text and span begin at the position recorded in next_token's `start`.  That position is taken after all layout
+    in front of the token has been skipped: no skip_whitespace / skip_comment can run between the assignment of `start` and a
+    use of it (a scan_* call that slices from it, a span built from it).  Otherwise a comment placed directly in front of a
+    token becomes part of that token - `[ # note\n 3 ]` yields a number literal whose text starts at the `#`."""
+    fn = ctx.need("syntax::scanner::Lexer::next_token")
+    ctx.touch(fn)
+    sl = [i for i, l in enumerate(fn.locals) if l["name"] == "start"]
+    layout = [c for c in fn.calls() if (c.callee or "").split("::")[-1] in ("skip_whitespace", "skip_comment") and "Lexer" in (c.callee or "")]
+    if not sl or not layout:
+        ctx.bad("token-start|shape", fn.where(), "next_token no longer has a `start` position and layout-skipping calls to relate")
+        return
+    sl = sl[0]
+    assigns = {b for (b, k, st) in fn.whole_defs(sl)}
+    # uses of start: operands that copy it (arguments of scan_* calls, span aggregates)
+    uses = set()
+    for b in sorted(fn.live):
+        for st in fn.blocks[b]["s"]:
+            if json.dumps({"l": sl, "p": []}) in json.dumps(st["rv"]):
+                uses.add(b)
+        t = fn.blocks[b]["t"]
+        if t["k"] == "call" and json.dumps({"l": sl, "p": []}) in json.dumps(t.get("args", [])):
+            uses.add(b)
+    # locals that are plain copies of start (temporaries handed to the calls)
+    copies = {st["lhs"]["l"] for b in fn.live for st in fn.blocks[b]["s"] if st["rv"]["k"] == "use" and isinstance(st["rv"]["a"], dict) and (st["rv"]["a"].get("copy") or st["rv"]["a"].get("move") or {}).get("l") == sl and not (st["rv"]["a"].get("copy") or st["rv"]["a"].get("move"))["p"]}
+    for b in sorted(fn.live):
+        t = fn.blocks[b]["t"]
+        if t["k"] == "call" and any(isinstance(a, dict) and (a.get("copy") or a.get("move") or {}).get("l") in copies for a in t.get("args", [])):
+            uses.add(b)
+        for st in fn.blocks[b]["s"]:
+            if st["rv"]["k"] == "agg" and any(isinstance(a, dict) and (a.get("copy") or a.get("move") or {}).get("l") in copies for a in st["rv"].get("ops", [])):
+                uses.add(b)
+    ctx.floor("uses of next_token's start position", len(uses), 4)
+    for c in layout:
+        short = c.callee.split("::")[-1]
+        if c.target is None:
+            continue
+        stale = fn.reach([c.target], removed_nodes=assigns) & uses
+        key = "token-start|after-%s" % short
+        if stale:
+            ctx.bad(key, fn.where(c.block), "after %s() next_token can use the `start` position recorded before it (at %s) without recording it again: the skipped text in front of the token becomes part of the token's text and span (a comment directly before a number literal makes the literal unreadable: the interpreter panics on it)" % (short, ", ".join("line %s" % fn.block_line(b) for b in sorted(stale)[:3])))
+        else:
+            ctx.ok(key, fn.where(c.block), "`start` is recorded again before any use")
+
+
+def r8_adjacency_errors_are_identifier_glue_only(ctx):
+    """Whether two tokens are separated by layout must not matter.  The one place where the scanner looks at the byte *after* a
+    complete token and rejects is `1foo` - a word glued to a number, which no layout-free reading could split anyway.  That
+    rejection is raised under an identifier-class test of the following byte and under nothing else: any further byte in the
+    condition (`.`, an operator) makes `6.25.sqrt()` an error while `6.25 .sqrt()` is accepted."""
+    fn = ctx.need(LEX + "scan_number")
+    ctx.touch(fn)
+    IDENT = ("is_alpha_or_underscore", "is_ascii_alphabetic", "is_ascii_alphanumeric")
+    sites = [c for c in fn.calls() if (c.callee or "").endswith("emit_error") and "InvalidIdentifier" in sh(ne(fn.deep(c.args[2])))]
+    if not sites:
+        ctx.note("scan_number raises no InvalidIdentifier error: nothing to check")
+        return
+    for c in sites:
+        # the conditions that send control into the rejecting region: the dominating ones, or - when the region is entered
+        # from several tests (`a || b`) - every deciding alternative of its entry block
+        entry = c.block
+        cons = fn.constraints(entry)
+        # walk up to the first block of the region: the closest dominator whose own constraints are a strict prefix
+        doms = [d for d in fn.dominators(entry) if d != entry]
+        region_entry = entry
+        for d in sorted(doms, key=lambda d: len(fn.dominators(d)), reverse=True):
+            if any(fn.switch_info(S)["kind"] == "call" and (fn.switch_info(S)["callee"] or "").split("::")[-1] in IDENT for S, al in fn.constraints(d)) or any(fn.blocks[S]["t"]["k"] == "switch" and "next_char" in sh(ne(fn.deep(fn.blocks[S]["t"]["d"]))) for S, _l in fn.deciding(d)):
+                region_entry = d
+        tests = []
+        for S, al in fn.constraints(region_entry):
+            tests.append((S, set(al), True))
+        for S, lab in fn.deciding(region_entry):
+            if not any(S == t[0] for t in tests):
+                tests.append((S, {lab}, False))
+        bad = []
+        ident = False
+        for S, labs, dom in tests:
+            si = fn.switch_info(S)
+            txt = sh(ne(fn.deep(fn.blocks[S]["t"]["d"])))
+            if si["kind"] == "call" and (si["callee"] or "").split("::")[-1] in IDENT and 0 not in labs:
+                ident = True
+                continue
+            if "next_char" in txt or re.search(r"self\.src\[self\.pos\]", txt):
+                if si["kind"] == "bin" and si["op"] == "Lt" and "self.len" in txt + "len":
+                    continue
+                if si["kind"] == "call" and (si["callee"] or "").split("::")[-1] == "is_ascii_digit":
+                    continue    # the loops that consume the literal's own digits
+                bad.append(txt[:50])
+        if bad:
+            ctx.bad("adjacency|scan_number|%s" % re.sub(r"\s+", "", bad[0])[:40], fn.where(c.block), "a number literal is rejected because of the byte that follows it under `%s`, not only when that byte would glue a word to it: the same tokens separated by a space are accepted, so layout decides (`6.25.sqrt()` vs `6.25 .sqrt()`)" % bad[0])
+        elif ident:
+            ctx.ok("adjacency|scan_number", fn.where(c.block), "rejected only under an identifier-class test of the following byte")
+        else:
+            ctx.bad("adjacency|scan_number|no-ident-test", fn.where(c.block), "the word-glued-to-number rejection is not guarded by an identifier-class test of the following byte")
+
+
+def r9_line_ends_are_equal_for_the_renderer(ctx):
+    """LF, CRLF and CR files are the same program - also when a diagnostic is rendered for them: the line table's look-ahead
+    for the LF of a CRLF stays inside the text (shared with C07-R5b)."""
+    from .c07 import r5b_renderer_indexes_stay_inside
+    r5b_renderer_indexes_stay_inside(ctx)
+
+
 RULES = [("C10-R1", r1_one_whitespace_predicate), ("C10-R2", r2_tokens_carry_no_layout), ("C10-R3", r3_parser_sees_only_tokens),
-         ("C10-R4", r4_lookahead_rollback), ("C10-R5", r5_parentheses_add_no_node), ("C10-R6", r6_word_is_identifier_bytes)]
+         ("C10-R4", r4_lookahead_rollback), ("C10-R5", r5_parentheses_add_no_node), ("C10-R6", r6_word_is_identifier_bytes), ("C10-R7", r7_token_start_after_layout), ("C10-R8", r8_adjacency_errors_are_identifier_glue_only), ("C10-R9", r9_line_ends_are_equal_for_the_renderer)]
 
 EXPLANATION = (
     "R1: both whitespace-skipping loops of the scanner (between tokens, between the words of a multi-word keyword) use the "
@@ -288,6 +391,9 @@ EXPLANATION += (
 )
 EXPLANATION += (
     " R2 also: the search for the end of a comment starts at the cursor (offset 0 of a haystack that begins at pos)."
+)
+EXPLANATION += (
+    " R7: next_token records the token's start position after all layout in front of it has been skipped - no skip_whitespace / skip_comment can run between the assignment of `start` and a use of it. R8: the only rejection that depends on the byte following a complete number literal is the word-glued-to-number case, raised under an identifier-class test of that byte and nothing else. R9 (= C07-R5b): the line table's CRLF look-ahead stays inside the text."
 )
 ASSUMPTIONS = ["layout bytes are exactly those accepted by u8::is_ascii_whitespace"]
 TRUSTED = ["rustc nightly MIR", "nsx exporter", "nsverif reachability"]
